@@ -36,22 +36,37 @@ theorem walk_sufficient (b : Brk σ α) (hbid : ∀ s q, b.latest s = some q →
           simp only [worth, List.map_cons, List.map_nil, List.sum_cons, List.sum_nil, add_zero, posValue, hh]
           cases b.latest k <;> simp
         rw [hv] at this; linarith
-    · cases hb : b.latest k with
+    · rename_i hnle
+      cases hb : b.latest k with
       | none => simp [hb] at h
       | some q =>
         simp only [hb, Variant.repaired, if_true] at h
         have hp := hbid k q hb
+        have hceil : rem ≤ q.bid * (⌈rem / q.bid⌉ : α) := by
+          have h1 : rem / q.bid ≤ (⌈rem / q.bid⌉ : α) := Int.le_ceil _
+          have := mul_le_mul_of_nonneg_left h1 hp.le
+          rwa [mul_div_cancel₀ _ hp.ne'] at this
+        have hw : ∀ n : α, worth b [(k, n)] = q.bid * n := by
+          intro n
+          simp only [worth, List.map_cons, List.map_nil, List.sum_cons, List.sum_nil, add_zero, hb,
+            Option.map_some, Option.getD_some]
         rcases h with h | h
         · cases h
-          rw [worth_append]
-          have : rem ≤ q.bid * (⌈rem / q.bid⌉ : α) := by
-            have h1 : rem / q.bid ≤ (⌈rem / q.bid⌉ : α) := Int.le_ceil _
-            have := mul_le_mul_of_nonneg_left h1 hp.le
-            rwa [mul_div_cancel₀ _ hp.ne'] at this
-          have hw : worth b [(k, (HasFloor.ceil (rem / q.bid) : α))] = q.bid * (⌈rem / q.bid⌉ : α) := by
-            simp only [worth, List.map_cons, List.map_nil, List.sum_cons, List.sum_nil, add_zero, hb,
-              Option.map_some, Option.getD_some]; rfl
-          rw [hw]; linarith
+          rw [worth_append, hw]
+          -- the share count: ceil(rem / bid), capped at the position held
+          cases hh : b.hold k with
+          | none => simp only []; show worth b acc + rem ≤ worth b acc + q.bid * (⌈rem / q.bid⌉ : α); linarith
+          | some hq =>
+            simp only []
+            by_cases hlt : hq < (HasFloor.ceil (rem / q.bid) : α)
+            · simp only [hlt, if_true]
+              -- the whole position: worth more than what is still to be raised
+              have hpv : (posValue b k).getD 0 = q.bid * hq := by simp [posValue, hb, hh]
+              rw [hpv] at hnle
+              have := lt_of_not_ge hnle
+              linarith
+            · simp only [hlt, if_false]
+              show worth b acc + rem ≤ worth b acc + q.bid * (⌈rem / q.bid⌉ : α); linarith
         · cases h
 
 /-- C10: a partial sale never exceeds a whole-share position -/
